@@ -144,19 +144,20 @@ type gateway struct {
 }
 
 type redisEngine struct {
-	dir      string
-	bin      string
-	buildErr string
-	emb      *gateway
-	raft     *gateway
-	raftDB   *NoKV.DB
-	raftSvc  *kvService
-	raftSrv  *grpc.Server
-	pdSrv    *grpc.Server
-	seq      *respConn
-	seqAddr  string
-	keySeq   int
-	stats    map[string]any
+	dir         string
+	bin         string
+	buildErr    string
+	emb         *gateway
+	raft        *gateway
+	raftDB      *NoKV.DB
+	raftSvc     *kvService
+	raftSrv     *grpc.Server
+	pdSrv       *grpc.Server
+	seq         *respConn
+	seqAddr     string
+	infraReruns int
+	keySeq      int
+	stats       map[string]any
 }
 
 func repoDir() string {
@@ -190,24 +191,47 @@ func newRedisEngine() *redisEngine {
 	return e
 }
 
+// startGateway launches the binary on a free port; the port is picked by bind-and-release, so
+// another process can grab it in between: the gateway then exits and another port is tried.
 func (e *redisEngine) startGateway(args ...string) (*gateway, error) {
-	addr := freeAddr()
-	cmd := exec.Command(e.bin, append(args, "-addr", addr)...)
-	cmd.Dir = e.dir
-	logf, _ := os.Create(filepath.Join(e.dir, fmt.Sprintf("gw-%s.log", strings.ReplaceAll(addr, ":", "_"))))
-	cmd.Stdout, cmd.Stderr = logf, logf
-	if err := cmd.Start(); err != nil {
-		return nil, err
-	}
-	for i := 0; i < 300; i++ {
-		if c, err := net.DialTimeout("tcp", addr, 200*time.Millisecond); err == nil {
-			c.Close()
-			return &gateway{cmd: cmd, addr: addr}, nil
+	var lastErr error
+	for try := 0; try < 5; try++ {
+		addr := freeAddr()
+		cmd := exec.Command(e.bin, append(append([]string{}, args...), "-addr", addr)...)
+		cmd.Dir = e.dir
+		logf, _ := os.Create(filepath.Join(e.dir, fmt.Sprintf("gw-%s.log", strings.ReplaceAll(addr, ":", "_"))))
+		cmd.Stdout, cmd.Stderr = logf, logf
+		if err := cmd.Start(); err != nil {
+			return nil, err
 		}
-		time.Sleep(50 * time.Millisecond)
+		exited := make(chan struct{})
+		go func() { _ = cmd.Wait(); close(exited) }()
+		up := false
+	wait:
+		for i := 0; i < 1200; i++ { // up to 60 s on a loaded machine
+			select {
+			case <-exited:
+				break wait
+			default:
+			}
+			if c, err := net.DialTimeout("tcp", addr, 200*time.Millisecond); err == nil {
+				c.Close()
+				up = true
+				break
+			}
+			time.Sleep(50 * time.Millisecond)
+		}
+		if up {
+			select {
+			case <-exited: // something else answered on that port
+			default:
+				return &gateway{cmd: cmd, addr: addr}, nil
+			}
+		}
+		_ = cmd.Process.Kill()
+		lastErr = fmt.Errorf("gateway did not come up on %s", addr)
 	}
-	_ = cmd.Process.Kill()
-	return nil, fmt.Errorf("gateway did not come up on %s", addr)
+	return nil, lastErr
 }
 
 func (e *redisEngine) embedded() (*gateway, error) {
@@ -274,7 +298,6 @@ func (e *redisEngine) close() {
 	for _, g := range []*gateway{e.emb, e.raft} {
 		if g != nil && g.cmd.Process != nil {
 			_ = g.cmd.Process.Kill()
-			_, _ = g.cmd.Process.Wait()
 		}
 	}
 	if e.raftSrv != nil {
@@ -348,8 +371,36 @@ func (e *redisEngine) gw(backend string) (*gateway, error) {
 	return e.embedded()
 }
 
+// Exec reruns a case once when an infrastructure failure (`harness:…`: a gateway that did not
+// start, a dropped TCP connection) shows up, so that only outcomes of the code under test are compared.
 func (e *redisEngine) Exec(ops []string) []string {
+	out := e.execOnce(ops)
+	for _, o := range out {
+		if strings.HasPrefix(o, "harness:") {
+			e.stats["infrastructure_reruns"] = e.infraReruns + 1
+			e.infraReruns++
+			if e.seq != nil {
+				e.seq.c.Close()
+				e.seq = nil
+			}
+			return e.execOnce(ops)
+		}
+	}
+	return out
+}
+
+func (e *redisEngine) execOnce(ops []string) []string {
 	out := make([]string, len(ops))
+	if tf := os.Getenv("C30_TRACE"); tf != "" {
+		defer func() {
+			f, _ := os.OpenFile(tf, os.O_APPEND|os.O_CREATE|os.O_WRONLY, 0o644)
+			fmt.Fprintf(f, "CASE\n")
+			for i := range ops {
+				fmt.Fprintf(f, "%s => %s\n", ops[i], out[i])
+			}
+			f.Close()
+		}()
+	}
 	// every case starts on fresh keys (a minimised replay may have lost its seq.reset line)
 	e.keySeq++
 	ctrKey, nxKey := fmt.Sprintf("seqctr%d", e.keySeq), fmt.Sprintf("seqnx%d", e.keySeq)
